@@ -199,10 +199,14 @@ class App(object):
                                'instead of building a second one)')
 
     # -- restart ----------------------------------------------------------
-    def restart(self):
-        """Emulate a process restart: re-run the start-up synchronisation."""
-        trait_obj._TRAITS_SYNCED = False
-        rc_obj._RESOURCE_CLASSES_SYNCED = False
+    def restart(self, new_process=True):
+        """Emulate a process restart: re-run the start-up synchronisation.
+        new_process=False: the application is loaded again in the SAME
+        process (what mod_wsgi / uwsgi do after a failed load): the
+        module-level "synchronised" flags keep whatever the code left."""
+        if new_process:
+            trait_obj._TRAITS_SYNCED = False
+            rc_obj._RESOURCE_CLASSES_SYNCED = False
         deploy.update_database(self.conf)
 
     # -- snapshots (file copy; NullPool => no connection is open between
